@@ -256,7 +256,15 @@ class Module:
                     if isinstance(t, ast.Name):
                         self.defs[t.id] = ("const", st.value, st)
                         self.assign_order.append((t.id, st))
-                if not all(isinstance(t, ast.Name) for t in st.targets):
+                    elif isinstance(t, (ast.Tuple, ast.List)) and all(isinstance(e, ast.Name) for e in t.elts):
+                        # a, b = <expr>: each name is the corresponding item of the value
+                        for i, e in enumerate(t.elts):
+                            item = ast.Subscript(value=st.value, slice=ast.Constant(i), ctx=ast.Load())
+                            ast.copy_location(item, st.value)
+                            ast.fix_missing_locations(item)
+                            self.defs[e.id] = ("const", item, st)
+                            self.assign_order.append((e.id, st))
+                if not all(isinstance(t, ast.Name) or (isinstance(t, (ast.Tuple, ast.List)) and all(isinstance(e, ast.Name) for e in t.elts)) for t in st.targets):
                     self.toplevel.append(st)
             elif isinstance(st, ast.AnnAssign):
                 if isinstance(st.target, ast.Name) and st.value is not None:
